@@ -355,7 +355,14 @@ fn logic(r: &mut Rng, depth: u32) -> S {
 }
 
 fn source_program(r: &mut Rng, sweep: bool) -> String {
-    let rich = r.chance(1, 3);
+    // a third of the programs use plain names only and no block functions (no `$`-helper variables): their
+    // renderings lie inside the lexer/parser model, so the whole-model round trip is checked on them
+    let plain = r.chance(1, 3);
+    let rich = !plain && r.chance(1, 3);
+    let s = source_program_named(r, sweep, rich);
+    if plain { s.replace("x_1", "u").replace("x_a", "v").replace("r_1", "rr") } else { s }
+}
+fn source_program_named(r: &mut Rng, sweep: bool, rich: bool) -> String {
     let mut s = String::new();
     match r.below(7) {
         0 => s.push_str("solve\n"),
@@ -386,6 +393,7 @@ fn compile_source(text: &str) -> Option<Model> {
 }
 
 // ------------------------------------------------------------------------------------------------ linear-model generator
+const PLAIN_NAMES: [&str; 6] = ["x", "y", "z", "w2", "u", "v3"];
 const LIN_NAMES: [&str; 10] = ["x", "y", "z", "x_1", "x_a_b", "$abs_0", "$logic_witness_0", "$max_1_select_0", "w2", "$min_3"];
 const COEFFS: [f64; 30] = [1.0, -1.0, 2.0, -2.0, 0.5, -0.5, 3.0, 10.0, 0.1, -0.1, 1e-9, -1e-9, 1e-8, -1e-7, 1e-6, -1e-6, 9.9e-6, -9.9e-6,
     1e-5, -1e-5, 1.0001e-5, -1.0001e-5, 2e-5, -2e-5, 1e9, -1e9, 123456.789, -0.333, 1000.0, -999999999.9];
@@ -406,11 +414,12 @@ fn lin_var_type(r: &mut Rng) -> VariableType {
 fn random_lin(r: &mut Rng, sweep: bool) -> LinearModel {
     let nv = 1 + r.below(4);
     let mut m = LinearModel::new();
-    let mut pool: Vec<&str> = LIN_NAMES.to_vec();
+    let plain = r.chance(1, 3);
+    let mut pool: Vec<&str> = if plain { PLAIN_NAMES.to_vec() } else { LIN_NAMES.to_vec() };
     for _ in 0..nv { let i = r.below(pool.len()); m.add_variable(pool.remove(i), lin_var_type(r)); }
     let coef = |r: &mut Rng| if sweep { *r.pick(&COEFFS) } else { *r.pick(&COEFFS[..10]) };
     let nr = 1 + r.below(4);
-    let names = ["cap", "a", "c2", "row_1", "$r"];
+    let names = if plain { ["cap", "a", "c2", "rr", "k"] } else { ["cap", "a", "c2", "row_1", "$r"] };
     for i in 0..nr {
         let mut cs: Vec<f64> = (0..nv).map(|_| if r.chance(1, 4) { 0.0 } else { coef(r) }).collect();
         if i == 0 { for c in cs.iter_mut() { if *c == 0.0 { *c = 1.0; } } }       // every variable is used somewhere
